@@ -30,6 +30,18 @@ CHECKS = {
          "proof", "For each constructor the listed ill-formedness conditions are proved to raise on every path and every well-formed input to be accepted (an unannounced exception on any path of any contract fails an obligation)", "4/C18"),
  "C08": ("contract-based deductive verification: `equals` contract per indicator (indicator variable = definition on the schedule) over what initialize() asserts, z3",
          "proof", "Equality contracts for utilisation, number of tasks assigned, resource cost (constant/linear/quadratic), idle time, tardiness, earliness, number tardy, maximum lateness, flow time, weighted completion/start, smallest/greatest start, user expressions, targets and bounds; task/busy-interval counts are bounded shapes, horizons for the utilisation quotient are taken from a list", "4/C08"),
+ "C07": ("contract-based deductive verification: loop invariant of the incremental optimiser over a ghost solver (loop-cut rule: init, preservation for one arbitrary iteration, exit => post), objective-wiring contracts; z3",
+         "proof", "Loop contract on _solve_optimize_incremental: for every iteration count and every interruption point the result is a model of the problem's constraints, no worse than any value found before, optimal on the unsat exit and (under the declared-bound hypothesis) on the bound exit; create_objective registers exactly the declared objective(s) / their weighted sum for both optimisers and all priority modes", "4/C07"),
+ "C11": ("contract-based deductive verification: postconditions on the SchedulingSolution returned by solve()/build_solution over a ghost model (every model of the asserted set), z3",
+         "proof", "Contract on build_solution (through solve and check_sat): end - start = duration, assigned_resources <-> assignments, assignment interval implied by the requirement, cumulative workers under their own name, unscheduled tasks carry no assignment, horizon >= ends, calendar times; requirement shapes are bounded", "4/C11"),
+ "C12": ("contract-based deductive verification: method contracts with ghost history on find_another_solution / find_another_solution_for_variable over the ghost solver, z3",
+         "proof", "Each request returns a model of the problem's constraints that differs from the current (and every earlier) solution, fails only when no such model exists (instantiated unsat answer), raises without a current solution; call sequences of bounded length", "4/C12"),
+ "C13": ("contract-based deductive verification: object invariant (stack == problem's constraint system, no open scope, registries unchanged) preserved by every public method; loop contract for the incremental optimiser",
+         "proof", "Invariant checked after every call of bounded call sequences (initialize, export_to_smt2, solve, second solver) for both optimisers, and for solve() with the incremental optimiser through the loop contract (unbounded iterations)", "4/C13"),
+ "C15": ("contract-based deductive verification: configuration independence of the asserted set, solver selection and objective wiring over all option combinations (path-exhaustive), z3",
+         "proof", "For every combination of debug x parallel x random_values x logics x optimizer (x priority): initialize() stacks a set equivalent to the default configuration's, selects Optimize/SolverFor/Solver as declared, sets every global z3 option; then validity of returned schedules is C01-C04's (never mentions the configuration). Agreement of z3's answers across logics is z3's soundness (trusted)", "4/C15"),
+ "C19": ("contract-based deductive verification: ghost map invariant of the debug path + unsat-core postcondition of solve() over the ghost solver",
+         "proof", "In debug mode every asserted formula is tracked under its own name, a mapped name belongs to the constraint owning the formula, unmapped ones are basic rules; on unsat the printed constraints are exactly the owners of the core's formulas and, with the basic rules, cover the core (jointly unsatisfiable by the solver contract); debug does not change the asserted set. Cores: singletons, pairs, whole set (bounded)", "4/C19"),
 }
 NOT_YET = {}
 
